@@ -4,6 +4,7 @@ import (
 	"fmt"
 	"sort"
 	"strings"
+	"sync"
 
 	"github.com/openziti/foundation/v2/errorz"
 	"github.com/openziti/storage/ast"
@@ -139,6 +140,62 @@ type kitchen struct {
 	ops                         []explore.Op
 	// opKind/opId describe each operation for the property-specific oracles
 	opInfo []kOpInfo
+	// parsed paged queries, one set per concurrent caller (a parsed query is not safe for concurrent use)
+	pagedPool sync.Pool
+}
+
+// kPaged: paged / sorted queries evaluated through parent and child stores (id order, so the expected
+// page is computed from the sorted id list).
+var kPagedTexts = []struct {
+	text        string
+	desc        bool
+	skip, limit int // limit < 0: none
+	cursorRoute bool
+}{
+	{"true skip 1", false, 1, -1, true},
+	{"true limit 1", false, 0, 1, true},
+	{"true skip 1 limit 1", false, 1, 1, true},
+	{"true skip 2", false, 2, -1, true},
+	{"true sort by id desc skip 1", true, 1, -1, false},
+	{"true sort by id desc limit 1", true, 0, 1, false},
+}
+
+type kPagedSet struct {
+	q [3][]ast.Query // per store (people, mgr, prof) x query text
+}
+
+func (k *kitchen) pagedQueries() *kPagedSet {
+	if v := k.pagedPool.Get(); v != nil {
+		return v.(*kPagedSet)
+	}
+	ps := &kPagedSet{}
+	for si, st := range []*world.Store{k.people, k.mgr, k.prof} {
+		for _, pt := range kPagedTexts {
+			q, err := ast.Parse(st, pt.text)
+			if err != nil {
+				panic(fmt.Sprintf("kitchen: cannot parse %q: %v", pt.text, err))
+			}
+			ps.q[si] = append(ps.q[si], q)
+		}
+	}
+	return ps
+}
+
+func kPage(want []string, desc bool, skip, limit int) []string {
+	l := append([]string{}, want...)
+	if desc {
+		for i, j := 0, len(l)-1; i < j; i, j = i+1, j-1 {
+			l[i], l[j] = l[j], l[i]
+		}
+	}
+	if skip >= len(l) {
+		return nil
+	}
+	l = l[skip:]
+	if limit >= 0 && len(l) > limit {
+		l = l[:limit]
+	}
+	return l
 }
 
 type kOpInfo struct {
@@ -684,6 +741,27 @@ func (k *kitchen) Invariant(tx *bbolt.Tx, mm explore.Model) error {
 		}
 		if got := drain(c.store.IterateIds(tx, ast.BoolNodeTrue)); strings.Join(got, ",") != strings.Join(c.want, ",") {
 			return fmt.Errorf("%s.IterateIds = %v, model says %v", c.name, got, c.want)
+		}
+	}
+	// paging through every store: the page is a window of that store's own entities (a parent-only row
+	// must neither appear in nor consume skip/limit of a plain child store's page)
+	ps := k.pagedQueries()
+	defer k.pagedPool.Put(ps)
+	for si, c := range []q{{k.people, "people", all}, {k.mgr, "mgr(plain child)", mgrs}, {k.prof, "prof(extended child)", all}} {
+		for qi, pt := range kPagedTexts {
+			want := strings.Join(kPage(c.want, pt.desc, pt.skip, pt.limit), ",")
+			ids, count, err := c.store.QueryIdsC(tx, ps.q[si][qi])
+			if err != nil {
+				return fmt.Errorf("%s.QueryIdsC(%q): %v", c.name, pt.text, err)
+			}
+			if strings.Join(ids, ",") != want || int(count) != len(c.want) {
+				return fmt.Errorf("%s.QueryIdsC(%q) = %v count=%d, model says [%s] count=%d", c.name, pt.text, ids, count, want, len(c.want))
+			}
+			if pt.cursorRoute {
+				if got := strings.Join(drain(c.store.IterateIds(tx, ps.q[si][qi])), ","); got != want {
+					return fmt.Errorf("%s.IterateIds(%q) = [%s], model says [%s]", c.name, pt.text, got, want)
+				}
+			}
 		}
 	}
 	// IterateValidIds: entities with child data, for both kinds of child store
